@@ -66,6 +66,21 @@ def run(chk, prog):
         # every fallible step precedes the write: Rule::init and the target lookup dominate it
         inits = [c for g in [sr] + prog.children(sr) for c in g.calls if re.search(r"rules::Rule::init$", c.name or "")]
         ok = bool(inits)
+        # ... and Rule::init really type-checks: the filter it installs (self.filter = Some(..)) is assigned only after Filter::validate,
+        # on every path (no cache, flag or fast path that skips the check for some filter texts)
+        ri_ = prog.find(r"^rules::Rule::init$", "redproxy_rs")
+        if len(ri_) == 1:
+            g_ = ri_[0]
+            val_ = [c.bb for c in g_.calls if re.search(r"rules::filter::Filter::validate$", c.name or "")]
+            sets_ = [b for b in g_.reachable for st in g_.stmts(b) if st["k"] == "assign" and "f:filter" in st["lhs"][1:]]
+            okv = bool(val_) and bool(sets_) and all(must_pass(g_, [0], val_, [b]) for b in sets_)
+            chk.instance("validate-then-swap", "%s:%s" % (g_.file, g_.line), "Rule::init installs a filter only after Filter::validate, on every path", okv)
+            if not okv:
+                chk.finding("validate-then-swap", g_.key, "validate-skipped", "", "%s:%s" % (g_.file, g_.line),
+                            "Rule::init can install a compiled filter without passing Filter::validate (a cache or fast path skips the type check for "
+                            "some filter texts): an ill-typed replacement is accepted instead of being refused with the old list kept in force")
+        else:
+            chk.anchor_missing("validate-then-swap", "rules::Rule::init")
         chk.instance("validate-then-swap", "%s:%s" % (sr.file, sr.line), "every rule is compiled and type-checked (Rule::init) inside set_rules", ok)
         if not ok:
             chk.finding("validate-then-swap", sr.key, "no-init", "", "%s:%s" % (sr.file, sr.line), "set_rules no longer runs Rule::init on the new rules before installing them")
